@@ -111,6 +111,12 @@ def append_attributes(*args: Tuple[str, Any]) -> Dict:
 
     for key, value in args:
         if key in result:
+            # `None` and `False` mean "no value", so there is nothing to append (or to append to)
+            if value is None or value is False:
+                continue
+            if result[key] is None or result[key] is False:
+                result[key] = value
+                continue
             # NOTE: Values don't have to be strings (e.g. numbers), so we can't simply use `+`
             prev_value = result[key]
             prev_value = prev_value if isinstance(prev_value, str) else str(prev_value)
